@@ -453,11 +453,13 @@ func (b stubBackend) GetLogs(common.Hash) ([][]*ethtypes.Log, error) { return ni
 func (b stubBackend) GetLogsByHeight(*int64) ([][]*ethtypes.Log, error) {
 	return nil, nil
 }
-func (b stubBackend) BlockBloom(*coretypes.ResultBlockResults) ethtypes.Bloom { return ethtypes.Bloom{} }
-func (b stubBackend) BloomStatus() (uint64, uint64)                             { return 4096, 0 }
-func (b stubBackend) RPCFilterCap() int32                                       { return 100000 }
-func (b stubBackend) RPCLogsCap() int32                                         { return 10000 }
-func (b stubBackend) RPCBlockRangeCap() int32                                   { return 10000 }
+func (b stubBackend) BlockBloom(*coretypes.ResultBlockResults) ethtypes.Bloom {
+	return ethtypes.Bloom{}
+}
+func (b stubBackend) BloomStatus() (uint64, uint64) { return 4096, 0 }
+func (b stubBackend) RPCFilterCap() int32           { return 100000 }
+func (b stubBackend) RPCLogsCap() int32             { return 10000 }
+func (b stubBackend) RPCBlockRangeCap() int32       { return 10000 }
 
 func (fx *fixtures) clientCtx() client.Context {
 	return client.Context{}.WithChainID(vh.ChainID).WithCodec(fx.enc.Codec).WithInterfaceRegistry(fx.enc.InterfaceRegistry).WithTxConfig(fx.enc.TxConfig).WithLegacyAmino(fx.enc.Amino)
@@ -559,22 +561,38 @@ func (l *legCtx) filtersTrial(r *vh.RNG, t int, fx *fixtures) {
 	// subscriber that piggy-backs on it - is retried with a fresh filter; only persistent silence counts)
 	var id ethrpc.ID
 	ok := false
-	for attempt := 0; attempt < 5 && !ok; attempt++ {
-		if attempt > 0 {
-			l.count("filters_probe_retries", 1)
-			time.Sleep(50 * time.Millisecond)
-		}
-		id = api.NewBlockFilter()
-		for i := 0; i < 300 && !ok; i++ {
-			time.Sleep(5 * time.Millisecond)
-			res, err := api.GetFilterChanges(id)
-			if err != nil {
-				break // filter is gone: try a fresh one
+	// the probe (and the final uninstall below) make API calls themselves: under the same watchdog as the storm, so that a
+	// lock the storm left held shows as a stable blocked set instead of hanging the leg
+	var pwg sync.WaitGroup
+	pwg.Add(1)
+	go func() {
+		defer pwg.Done()
+		for attempt := 0; attempt < 5 && !ok; attempt++ {
+			if attempt > 0 {
+				l.count("filters_probe_retries", 1)
+				time.Sleep(50 * time.Millisecond)
 			}
-			if hs, _ := res.([]common.Hash); len(hs) > 0 {
-				ok = true
+			id = api.NewBlockFilter()
+			for i := 0; i < 300 && !ok; i++ {
+				time.Sleep(5 * time.Millisecond)
+				res, err := api.GetFilterChanges(id)
+				if err != nil {
+					break // filter is gone: try a fresh one
+				}
+				if hs, _ := res.([]common.Hash); len(hs) > 0 {
+					ok = true
+				}
 			}
 		}
+	}()
+	if stuck, frames := waitOrStuck(&pwg, "rpc/namespaces/ethereum/eth/filters", "rpc/ethereum/pubsub"); stuck {
+		if frames != "" {
+			l.viol("deadlock:filter-system", "filters", map[string]any{"trial": t, "phase": "probe after the storm", "stable_blocked_set": trunc(frames, 6000)})
+		} else {
+			l.rep.Inconcl = append(l.rep.Inconcl, "filters probe watchdog fired without a stable blocked set in the filter system")
+		}
+		close(stop)
+		return
 	}
 	close(stop)
 	ewg.Wait()
@@ -591,7 +609,12 @@ func (l *legCtx) filtersTrial(r *vh.RNG, t int, fx *fixtures) {
 	} else {
 		l.count("filters_probe_ok", 1)
 	}
-	api.UninstallFilter(id)
+	var uwg sync.WaitGroup
+	uwg.Add(1)
+	go func() { defer uwg.Done(); api.UninstallFilter(id) }()
+	if stuck, frames := waitOrStuck(&uwg, "rpc/namespaces/ethereum/eth/filters", "rpc/ethereum/pubsub"); stuck && frames != "" {
+		l.viol("deadlock:filter-system", "filters", map[string]any{"trial": t, "phase": "uninstall of the probe filter", "stable_blocked_set": trunc(frames, 6000)})
+	}
 }
 
 // ---------------------------------------------------------------------------------------
@@ -946,7 +969,6 @@ func (l *legCtx) queriesRun(r *vh.RNG, t int, noisy bool, ref [][]byte) (trace [
 	wg.Wait()
 	return trace, differs
 }
-
 
 func trunc(s string, n int) string {
 	if len(s) > n {
